@@ -3,6 +3,7 @@
 package c09
 
 import (
+	"bytes"
 	"math/big"
 	"testing"
 
@@ -147,11 +148,29 @@ func TestVerifGoldilocks(t *testing.T) {
 		pt  *goldilocks.Point
 	}
 	var origs []orig
+	var lastEnc []byte
 	addCircl := func(pt *goldilocks.Point) {
 		q := *pt
 		b, err := q.MarshalBinary()
 		if err != nil {
 			t.Fatal(err)
+		}
+		// the same value serialised into a buffer the caller has used before
+		// (all ones, and the encoding of the previous point): the same octets
+		for _, fill := range [][]byte{bytes.Repeat([]byte{0xFF}, 57), lastEnc} {
+			if len(fill) != 57 {
+				continue
+			}
+			q2 := *pt
+			d := lib.Clone(fill)
+			lib.Count("converse:goldilocks:ToBytes-into-used-buffer")
+			if err := q2.ToBytes(d); err != nil || !lib.Eq(d, b) {
+				viol("serialisation-depends-on-buffer-contents", "goldilocks.Point.ToBytes", "", monGoldi, "fresh_buffer", b, "used_buffer_before", fill, "used_buffer_after", d, "err", err)
+			}
+		}
+		lastEnc = lib.Clone(b)
+		if len(valid)%2 == 1 {
+			lastEnc[56] ^= 0x80 // also the encoding of the negative
 		}
 		valid = append(valid, b)
 		origs = append(origs, orig{b, pt})
